@@ -50,6 +50,9 @@ pub fn install_panic_hook() {
         } else {
             "<non-string panic>".into()
         };
+        if std::env::var_os("MC_SHOW_PANICS").is_some() {
+            eprintln!("PANIC at {loc}: {msg}");
+        }
         LAST_PANIC.with(|p| *p.borrow_mut() = Some((loc, msg)));
     }));
 }
